@@ -864,6 +864,10 @@ class Interp(object):
                 return
             if g is passed:
                 self.viol("preserve_context returned f itself although an action is current")
+            # the callable is now the only reference to what was handed over (`Thread(target=preserve_context(Worker(x).run))`)
+            del passed
+            import gc
+            gc.collect()
             self._attach(gt_children, gt)
             self.note("reserved", uuid=cur.task_uuid, tid=None, nid=node["nid"])
 
